@@ -10,7 +10,7 @@ from ..gen import random_plan, plan_steps, rand_fraction, enc_amount
 from ..models import si_table as SI
 from ..models import rounding as RM
 from ..models.world import predefined_world
-from ..ops import stored
+from ..ops import stored, rogue_converter_sub
 from ..oracle import brief
 
 RULE = ("all ordered pairs of units of each linear predefined type x amounts "
@@ -229,6 +229,9 @@ def world_case(chk, rng, wi, nconv=30):
     planj = [d.to_json() for d in plan]
     steps = plan_steps(plan)
     subs = []
+    rogue = rogue_converter_sub(chk, rng, w) if wi % 3 == 0 else None
+    if rogue:
+        steps.extend(rogue[0])
     linear = [t for t in w.types.values() if t.has_ref]
     for j in range(nconv):
         t = rng.choice(linear)
@@ -252,6 +255,8 @@ def world_case(chk, rng, wi, nconv=30):
             chk.count("world-skipped|valid-declaration-rejected (C15's)")
             return
         chk.count("worlds")
+        if rogue:
+            rogue[1](obs)
         if depth >= 3:
             chk.count("worlds with definition chain depth >= 3")
         for j, st, s1, s2, s3, kind in subs:
